@@ -13,6 +13,7 @@ import p_effect
 import p_effect_ir
 import p_dynamic
 import p_segmentation
+import p_eliasfano
 import p_cwrap
 import p_memory
 
@@ -131,7 +132,7 @@ def rules_c09(ctx):
 def rules_c10(ctx):
     S = p_search
     return (S.rule_range_form(ctx, 'eliasfano') + S.rule_agree_eps(ctx, 'eliasfano') + S.rule_clamp(ctx, 'eliasfano') + S.rule_cap(ctx, 'eliasfano') +
-            S.rule_rebase_agree(ctx) + S.rule_conv_range(ctx, 'eliasfano'))
+            S.rule_rebase_agree(ctx) + S.rule_conv_range(ctx, 'eliasfano') + p_eliasfano.rule_select_range(ctx))
 
 
 _SEARCH_ND = ('that every constraint point is within Epsilon of its segment, that float slopes and size_t(slope*double(k-key)) round inside the +2 slack, '
@@ -157,6 +158,7 @@ PROPS['C02'] = {
         'N-CAP (part of RANGE-FORM): the upper end is capped by field n',
         'CLOSING: make_segmentation adds the point (succ(in(n-1)), n) on every path on which the chunk ends the data, and the last chunk of the parallel builder ends at n; SENTINEL: build() terminates every level with (sentinel, 0, last_n)',
         'GAP-GUARD / RANK-AGREE (successor points): after a run of duplicates the point (succ(in(i)), i) is added exactly when succ(in(i)) < in(i+1); KEY-ARITH: no key-key difference in a signed same-width type',
+        'CONV-RANGE / INT-INTERCEPT: in every segment evaluator the floating estimate is bounded above by a constant before it is converted to an integer, and the integer intercept is added after the conversion, in integer arithmetic (never converted to Floating, whose mantissa is 24 bits by default)',
     ],
     'not_decided': _SEARCH_ND + '; the closing point/sentinel clauses are decided under C17/C03',
     'explanation': 'Clause-level static claim for C02: the cap that keeps gap queries from overshooting into the next segment and the cap of hi by n.',
@@ -176,6 +178,7 @@ PROPS['C08'] = {
         'RANGE-FORM / CLAMP / CAP / AGREE-EPS(+REC) / WINDOW-FORM on CompressedPGMIndex::search and its constructor (root estimate capped by root_range)',
         'KIND: the segment index handed to the model derives from a LAST_LE position in all three arms (one-level, forward scan, binary search); binary searches use the clamped key; a discarded routing result is a violation',
         'SENTINEL: every CompressedLevel key array ends with the sentinel on all construction paths; SUPPORT-ORDER: sel1 is bound to the final compressed_intercepts',
+        'CONV-RANGE / INT-INTERCEPT: in every segment evaluator the floating estimate is bounded above by a constant before it is converted to an integer, and the integer intercept is added after the conversion, in integer arithmetic (never converted to Floating, whose mantissa is 24 bits by default)',
     ],
     'not_decided': 'that slope merging and intercept clamping keep every segment within Epsilon (numeric)',
     'explanation': 'Clause-level static claim for C08: the PGMIndex clauses re-established on the compressed layout.',
@@ -185,6 +188,7 @@ PROPS['C09'] = {
     'decides': [
         'RANGE-FORM incl. the two early exits ({0,0,0} only under key<first_key, {n,n,n} only under key>last_key), CLAMP (every other use of the key is behind both exits), CAP, AGREE-EPS, KIND (LAST_LE inside the bucket slice)',
         'BUCKET-AGREE: bucket of a key computed with the same shift constant (power-of-two sizes) or the same field step (other sizes) at build and query time, on key-first_key; slice is [top_level[j], top_level[j+1])',
+        'CONV-RANGE / INT-INTERCEPT: in every segment evaluator the floating estimate is bounded above by a constant before it is converted to an integer, and the integer intercept is added after the conversion, in integer arithmetic (never converted to Floating, whose mantissa is 24 bits by default)',
     ],
     'not_decided': 'table bounds and the overflow guard arithmetic of build_top_level (numeric)',
     'explanation': 'Clause-level static claim for C09.',
@@ -194,8 +198,10 @@ PROPS['C10'] = {
     'decides': [
         'RANGE-FORM, CLAMP, CAP (segments[r] vs segments[r+1]), AGREE-EPS',
         'REBASE-AGREE: the constructor stores key-first_key for every segment except the sentinel, built after the rebase loop; search queries pred(k-first_key) and evaluates the model at origin+first_key',
+        'SELECT-RANGE: in pred(), the value whose high part feeds ef.high_0_select is bounded by size()-1 on every path (interval dataflow over the guard and the increment), so the rank never exceeds the number of buckets; the beyond-universe branch selects the last stored element',
+        'CONV-RANGE / INT-INTERCEPT: in every segment evaluator the floating estimate is bounded above by a constant before it is converted to an integer, and the integer intercept is added after the conversion, in integer arithmetic (never converted to Floating, whose mantissa is 24 bits by default)',
     ],
-    'not_decided': 'correctness of pred() over the high/low bit arrays (bit-level arithmetic on runtime values)',
+    'not_decided': 'correctness of the rest of pred() over the high/low bit arrays (bit-level arithmetic on runtime values)',
     'explanation': 'Clause-level static claim for C10.',
 }
 
@@ -345,6 +351,7 @@ PROPS['C17'] = {
         'END-GUARD over every pgm:: function and the C interface: no dereference or increment of an iterator on a path that has just established it equals end(), also across calls of member functions of the same object (a callee entered with the field at end() must re-test it first)',
         'SENTINEL: every level built by build() and every CompressedLevel key array ends with the sentinel on all construction paths, and no data key equals the sentinel (checks G1/G2 dominate the segmentation)',
         'CLAMP / CAP / N-CAP / KIND: the query key is clamped (no negative segment index), the position estimate is capped by the next intercept, hi is capped by n, the compressed segment index derives from a LAST_LE position',
+        'SELECT-RANGE: EliasFanoPGMIndex::pred() hands ef.high_0_select a rank within the number of buckets on every path (the beyond-universe guard covers the incremented value)',
     ],
     'not_decided': 'memory safety of the unchecked scans as a whole: it rests on numeric invariants (predictions within the window, intercepts <= n, top_level[j+1], ef.low[...] and loser-tree indices) that no static argument in reach bounds',
     'explanation': 'Clause-level static claim for C17: the structural part of memory safety (end-guards, sentinels, clamps and caps); out-of-bounds accesses that depend on numeric invariants are not claimed.',
@@ -358,4 +365,17 @@ PROPS['C18'] = {
     ],
     'not_decided': 'the behaviour of the wrapped classes themselves (C01/C02/C05/C06)',
     'explanation': 'Clause-level static claim for C18 on c-interface/cpgm.cpp analysed as built (macro-generated functions are analysed after expansion).',
+}
+
+
+PROPS['C11'] = {
+    'level': 'other', 'rules': p_mapped.rules_c11,
+    'decides': [
+        'KIND: lower_bound(key) is FIRST_GE(key) and contains(key) is std::binary_search, both over exactly [begin() + search(key).lo, begin() + search(key).hi) for the same key',
+        'KIND (upper_bound): starts from FIRST_GT(key) inside the PGM range, gallops while `it + step < end()` (tested first) and the probed element equals key, finishes with FIRST_GT(key) in [it + step/2, min(it + step, end()))',
+        'count(key): 0 exactly under `lower_bound(key) == end() || *lb != key` (end tested first), otherwise distance(lower_bound(key), upper_bound(key))',
+        'DERIVED: size() is n, end() is begin() + size(); the four queries read the key area only through begin()/end()',
+    ],
+    'not_decided': 'that the four results equal those of the std algorithms on every sequence: this rests on the numeric epsilon guarantee (C01/C02) for the stored keys and on the arithmetic of the gallop; value-level',
+    'explanation': 'Clause-level static claim for C11. (The first version of the design listed C11 as not applicable; the clauses above are structural necessary conditions of the same kind as those claimed for C02/C13 and are decided by the same engines.)',
 }
